@@ -74,6 +74,11 @@ fn rpc_error_xml(k: usize, severity: &str) -> String {
 
 /// Render a token tree as the body of an <rpc-reply>; rpc-errors are numbered in document order.
 fn render_tokens(top: &[String], inner: &[String]) -> String {
+    render_tokens_with(top, inner, false)
+}
+
+/// `same`: every <rpc-error> of the reply is field-for-field the same element (number 1)
+fn render_tokens_with(top: &[String], inner: &[String], same: bool) -> String {
     let mut k = 0usize;
     let mut s = String::new();
     for t in top {
@@ -82,11 +87,11 @@ fn render_tokens(top: &[String], inner: &[String]) -> String {
             "data" => s.push_str("<data>some data</data>"),
             "E" => {
                 k += 1;
-                s.push_str(&rpc_error_xml(k, "error"));
+                s.push_str(&rpc_error_xml(if same { 1 } else { k }, "error"));
             }
             "W" => {
                 k += 1;
-                s.push_str(&rpc_error_xml(k, "warning"));
+                s.push_str(&rpc_error_xml(if same { 1 } else { k }, "warning"));
             }
             "cmt" => s.push_str("<!-- a comment -->"),
             "x" => s.push_str("<unknown-element/>"),
@@ -97,11 +102,11 @@ fn render_tokens(top: &[String], inner: &[String]) -> String {
                         "ok" => s.push_str("<ok/>"),
                         "E" => {
                             k += 1;
-                            s.push_str(&rpc_error_xml(k, "error"));
+                            s.push_str(&rpc_error_xml(if same { 1 } else { k }, "error"));
                         }
                         "W" => {
                             k += 1;
-                            s.push_str(&rpc_error_xml(k, "warning"));
+                            s.push_str(&rpc_error_xml(if same { 1 } else { k }, "warning"));
                         }
                         "cmt" => s.push_str("<!-- inner comment -->"),
                         "c0" => s.push_str("<load-error-count>0</load-error-count>"),
@@ -247,15 +252,23 @@ fn c08(cases_path: &str, quick: bool, out: &mut dyn Write) {
                 continue;
             }
             seen.push(op);
-            let r = std::panic::catch_unwind(|| run_op(op, &body));
-            let (outcome, errs, detail) = r.unwrap_or_else(|_| ("panic".into(), vec![], String::new()));
-            writeln!(
-                out,
-                "{}",
-                json!({"ev": "c08", "case": k, "type": ty, "op": op, "top": top, "inner": inner,
-                       "outcome": outcome, "errs": errs, "detail": detail})
-            )
-            .unwrap();
+            let nerr = top.iter().chain(if top.iter().any(|t| t == "res") { inner.iter() } else { [].iter() }).filter(|t| *t == "E" || *t == "W").count();
+            for same in [false, true] {
+                // the same reply once more with all its <rpc-error>s identical (only if there are several)
+                if same && nerr < 2 {
+                    continue;
+                }
+                let body = if same { render_tokens_with(&top, &inner, true) } else { body.clone() };
+                let r = std::panic::catch_unwind(|| run_op(op, &body));
+                let (outcome, errs, detail) = r.unwrap_or_else(|_| ("panic".into(), vec![], String::new()));
+                writeln!(
+                    out,
+                    "{}",
+                    json!({"ev": "c08", "case": k, "type": ty, "op": op, "top": top, "inner": inner, "same": same,
+                           "outcome": outcome, "errs": errs, "detail": detail})
+                )
+                .unwrap();
+            }
         }
     }
 }
